@@ -75,6 +75,7 @@ TRANSLATORS = {
     "AddrGen.v": ("tr/addr.py", ["varlink/src/client.rs", "varlink/src/server.rs"]),
     "CertGen.v": ("tr/cert.py", ["varlink-certification/src/main.rs"]),
     "ProxyGen.v": ("tr/proxy.py", ["varlink-cli/src/proxy.rs"]),
+    "WorkerGen.v": ("tr/worker.py", ["varlink/src/server.rs"]),
 }
 
 
